@@ -30,7 +30,52 @@ def baseline(wt):
     return missing, len(passed)
 
 
+def recheck(names, tier='quick'):
+    """Regression over the stored seeded changes: apply each patch to /repo, run the check of its property, expect a
+    VIOLATION, revert. Patches that no longer apply to /repo HEAD (later fix commits touched the same lines) are
+    re-tried with `patch --fuzz`, else reported as stale."""
+    st, out = sh('git -C %s status --porcelain' % REPO)
+    assert out.strip() == '', '/repo not clean: ' + out
+    rows = []
+    for name in names:
+        d = os.path.join(VERIF, 'seeded', name)
+        meta = json.load(open(os.path.join(d, 'meta.json')))
+        prop = meta['property']
+        patch = os.path.join(d, 'patch.diff')
+        applied = None
+        try:
+            rc, out = sh('git -C %s apply %s' % (REPO, patch))
+            if rc == 0:
+                applied = 'git apply'
+            else:
+                rc, out = sh('patch -p1 --fuzz=3 --no-backup-if-mismatch -i %s' % patch, cwd=REPO)
+                applied = 'patch --fuzz' if rc == 0 else None
+            if not applied:
+                rows.append((name, prop, 'STALE (patch does not apply to HEAD)', ''))
+                continue
+            t0 = time.time()
+            rc, out = sh('./check %s --tier %s' % (prop, tier), cwd=VERIF)
+            viol = [l for l in out.splitlines() if l.startswith('VIOLATION')]
+            summ = out.strip().splitlines()[-1][:200] if out.strip() else ''
+            rows.append((name, prop, 'caught' if (rc != 0 and viol) else 'MISSED', summ))
+            meta['recheck'] = {'at': time.strftime('%Y-%m-%dT%H:%M:%SZ', time.gmtime()), 'applied_with': applied,
+                               'caught': bool(rc != 0 and viol), 'summary': summ,
+                               'no_failing_input': all('no-failing-input-found' in v for v in viol) if viol else None}
+            json.dump(meta, open(os.path.join(d, 'meta.json'), 'w'), indent=1)
+        finally:
+            sh('git -C %s checkout -- .' % REPO)
+            sh('git -C %s clean -fdq -e "*.pyc"' % REPO)
+        print(*rows[-1], flush=True)
+    st, out = sh('git -C %s status --porcelain' % REPO)
+    assert out.strip() == '', '/repo not clean after recheck: ' + out
+    print('caught %d / %d, missed %s, stale %s' % (sum(r[2] == 'caught' for r in rows), len(rows),
+          [r[0] for r in rows if r[2] == 'MISSED'], [r[0] for r in rows if r[2].startswith('STALE')]))
+
+
 def main():
+    if len(sys.argv) > 1 and sys.argv[1] == 'recheck':
+        names = sys.argv[2:] or sorted(os.listdir(os.path.join(VERIF, 'seeded')))
+        return recheck([n for n in names if os.path.isdir(os.path.join(VERIF, 'seeded', n))])
     ap = argparse.ArgumentParser()
     ap.add_argument('cmd')
     ap.add_argument('name')
